@@ -140,6 +140,26 @@ CHECKS.update({
         note="Ties between event and grid times (probability 0) are discarded."),
 })
 
+CHECKS.update({
+    "C13": dict(
+        technique="TLA+ spec SensLayout (augmented systems over an extended symbol table; block assembly vs derivative) "
+                  "checked by TLC with negative control; TLC oracle for random definitions; integrated systems validated "
+                  "step by step by TLC (TR_Integrator) against the specification's variational equations",
+        level="model_checking",
+        text="TLC checks on every selection from four menus (2x3 with atom and Laurent rate, 3x1, 1x2, 2x0) that the "
+             "block Jacobians the code assembles equal the derivative of f + vec(J.S+G) + vec(J.Z) in the by-parameter, "
+             "by-state and initial-value arrangements, that every arrangement is a re-indexing of the largest, and the "
+             "layout laws (the pinned by_state assembly is the negative control).  For random non-symmetric definitions "
+             "incl. parameter-free and single-state ones the specification's augmented right-hand sides and Jacobians are "
+             "compared entry by entry with ode_and_sensitivity (both arrangements), ode_and_sensitivityIV and the three "
+             "*_jacobian functions.  The three systems are integrated through PyGOM's stepping wrapper with all methods; "
+             "TLC validates every observed row against the reference solution of the specification's system, which is "
+             "itself compared with central finite differences of reference solutions.",
+        design="5 C13, 3.5",
+        note="Trusted base as C02; tolerance 1e-6 (1+max|ref|) for integrated rows, 1e-9 relative to the sum of |terms| "
+             "for point evaluations."),
+})
+
 NOT_APPLICABLE = {
     "C14": "stateless real-valued kernels (log/lgamma): no transitions or histories for a TLA+ model to decide; "
            "the decisive comparison is floating-point agreement with reference densities, a different technique "
